@@ -9,6 +9,8 @@ pub assume_specification<T> [std::option::Option::<std::option::Option<T>>::flat
 pub assume_specification<'a, T: Copy> [std::option::Option::<&T>::copied] (o: Option<&'a T>) -> (r: Option<T>)
     ensures r == (match o { Some(v) => Some(*v), None => None });
 
+pub assume_specification<T, A: core::alloc::Allocator> [<std::vec::Vec<T, A> as std::convert::AsRef<[T]>>::as_ref] (v: &std::vec::Vec<T, A>) -> (r: &[T])
+    ensures r@ == v@;
 pub assume_specification<T, E, U, F> [std::result::Result::<T, E>::and_then] (r: std::result::Result<T, E>, f: F) -> (out: std::result::Result<U, E>)
     where F: std::ops::FnOnce(T,) -> std::result::Result<U, E> + std::marker::Destruct,
     requires r is Ok ==> f.requires((r->Ok_0,)),
